@@ -223,8 +223,22 @@ fn rule_c14(ctx: &Ctx, out: &mut Vec<Violation>) {
     if let Some((fseq, ft)) = m.faults_off {
         let interval_us = ctx.plan.knobs.push_interval_ms as u64 * 1000;
         for name in m.sub_creates.keys() {
-            // the current instance of the name (a name deleted and re-created counts from its last create)
-            let inst = match m.last_sub(name) {
+            // the current instance of the name (a name deleted and re-created counts from its last
+            // create; when creates and deletes of the name overlapped, the instance that every
+            // linearization of its history leaves in place)
+            let inst = match m.last_sub(name).or_else(|| {
+                let end = m.health_start.map(|h| h.0).or(m.drain_start.map(|d| d.0)).unwrap_or(u64::MAX);
+                match lin::state_at(ctx, true, name, end) {
+                    lin::NameState::Present(cc) => {
+                        let create = &m.calls[&cc];
+                        match (&create.req, create.returned_ok()) {
+                            (Req::CreateSub { sub, topic, ack_deadline, push }, true) => Some(SubInst { name: sub.clone(), topic: topic.clone(), ack_deadline_req: *ack_deadline, push: push.clone(), create_call: cc, established_seq: create.ret_seq.unwrap() }),
+                            _ => None,
+                        }
+                    }
+                    _ => None,
+                }
+            }) {
                 Some(i) if i.push.is_some() => i,
                 _ => continue,
             };
